@@ -51,6 +51,14 @@ def emptyPosition : Position :=
   { board := Array.replicate 128 0, blackPieces := [], whitePieces := [], blackPawns := [], whitePawns := [],
     blackKing := 0, whiteKing := 0, flags := 0, ep := InvalidSq, ply := 0 }
 
+/-- `Position.hasRoomFor`: at most 8 pawns and 16 men per side -/
+def hasRoomFor (p : Position) (pc : Nat) : Bool :=
+  let s := p.side (pc &&& WhiteBit != 0)
+  let k := pc &&& Colorless
+  if k == King then true
+  else if k == Pawn then s.pawns.length < pawnCap && s.pawns.length + s.pieces.length < pieceCap
+  else s.pawns.length + s.pieces.length < pieceCap
+
 /-- place one piece (board write, king square or list append) -/
 def fenPlace (p : Position) (sq pc : Nat) : M Position := do
   let board ← bset p.board sq pc
@@ -76,11 +84,16 @@ def fenPlace (p : Position) (sq pc : Nat) : M Position := do
 def fenRank (r : Nat) : Bytes → Nat → Position → M (Except FenError (Position × Nat))
   | [], f, p => pure (.ok (p, f))
   | c :: cs, f, p =>
-    if 49 ≤ c && c ≤ 56 then fenRank r cs ((f + (c - 48)) % 256) p
+    if 49 ≤ c && c ≤ 56 then
+      let f := (f + (c - 48)) % 256
+      if f > Gen.H + 1 then pure (.error (.invalid "more than 8 files")) else fenRank r cs f p
     else
+      if f > Gen.H then pure (.error (.invalid "more than 8 files")) else
       let sq := (r + f) % 256
       let pc := charToPiece c
-      if pc == 0 then pure (.error .piece) else do
+      if pc == 0 then pure (.error .piece) else
+      if pc &&& Colorless == Pawn && (r == Gen.Rank1 || r == Gen.Rank8) then pure (.error (.invalid "pawn on back rank")) else
+      if !hasRoomFor p pc then pure (.error (.invalid "too many pieces")) else do
         let p ← fenPlace p sq pc
         fenRank r cs ((f + 1) % 256) p
 
@@ -95,6 +108,29 @@ def fenRanks : List Bytes → Nat → Position → M (Except FenError Position)
 
 def containsByte (s : Bytes) (c : Nat) : Bool := s.any (· == c)
 
+def countKings (b : Array Nat) (k : Nat) : Nat := (b.toList.filter (· == k)).length
+
+/-- `Position.isEnPassantSquareConsistent` (board reads are index-checked like in Go) -/
+def epConsistent (p : Position) : M Bool := do
+  let ep := p.ep
+  let here ← bget p.board ep
+  if whiteTurn p then do
+    let front ← bget p.board ((ep + 256 - Gen.UnitRank) % 256)
+    let behind ← bget p.board ((ep + Gen.UnitRank) % 256)
+    pure (rankOf ep == Gen.Rank6 && here == 0 && front == Gen.BPawn && behind == 0)
+  else do
+    let front ← bget p.board ((ep + Gen.UnitRank) % 256)
+    let behind ← bget p.board ((ep + 256 - Gen.UnitRank) % 256)
+    pure (rankOf ep == Gen.Rank3 && here == 0 && front == Gen.WPawn && behind == 0)
+
+/-- `Position.areCastlingFlagsConsistent` -/
+def castlingConsistent (p : Position) : Bool :=
+  let sqAt (s : Nat) := p.board.getD s 0
+  !(p.flags &&& FWK != 0 && (sqAt Gen.E1 != Gen.WKing || sqAt Gen.H1 != Gen.WRook)) &&
+  !(p.flags &&& FWQ != 0 && (sqAt Gen.E1 != Gen.WKing || sqAt Gen.A1 != Gen.WRook)) &&
+  !(p.flags &&& FBK != 0 && (sqAt Gen.E8 != Gen.BKing || sqAt Gen.H8 != Gen.BRook)) &&
+  !(p.flags &&& FBQ != 0 && (sqAt Gen.E8 != Gen.BKing || sqAt Gen.A8 != Gen.BRook))
+
 /-- `NewPositionFromFen` -/
 def parseFen (s : Bytes) : M (Except FenError Position) := do
   if s.any (· > 127) then pure (.error .nonAscii) else
@@ -105,6 +141,7 @@ def parseFen (s : Bytes) : M (Except FenError Position) := do
   match (← fenRanks rankStrs 0 emptyPosition) with
   | .error e => pure (.error e)
   | .ok p =>
+    if countKings p.board Gen.WKing != 1 || countKings p.board Gen.BKing != 1 then pure (.error (.invalid "kings")) else
     let turn := fields.getD 1 []
     if turn != [119] && turn != [98] then pure (.error .side) else
     let flags := if turn == [119] then FWhiteTurn else 0
@@ -123,13 +160,18 @@ def parseFen (s : Bytes) : M (Except FenError Position) := do
       | _ => .ok InvalidSq
     match epRes with
     | .error e => pure (.error e)
-    | .ok ep =>
+    | .ok ep => do
+      let p := { p with flags, ep }
+      let epOk ← if ep == InvalidSq then pure true else epConsistent p
+      if !epOk then pure (.error (.invalid "en passant")) else
+      if !castlingConsistent p then pure (.error (.invalid "castling")) else
       match atoi (fields.getD 5 []) with
       | none => pure (.error .fullmove)
       | some n =>
         if n < 1 then pure (.error .fullmoveRange) else
+        if n > Gen.maxFullMoveCounter then pure (.error (.invalid "full move counter too large")) else
         let ply := wrap16 ((n - 1) * 2)
         let ply := if flags &&& FWhiteTurn == 0 then wrap16 (ply + 1) else ply
-        pure (.ok { p with flags, ep, ply })
+        pure (.ok { p with ply })
 
 end Magog.Model
